@@ -97,6 +97,15 @@ def c05(payload):
                         if dev > 1e-9 * ext:
                             bad.append('command line puts the antenna elsewhere: rotation (key %s) then translation (key %s) on the command line puts the '
                                        'antenna %.3g m away from the same motion written into the coordinates' % (k1, k2, dev))
+                    # ... followed by a scaling: documented to come after rotation and translation, so every position is multiplied
+                    if not ground and not any(w.get('taper') for w in spec['wires']):      # taper limits are absolute lengths: they do not scale
+                        s9 = float('%.3g' % 10 ** rng.uniform(-0.5, 0.5))
+                        G2 = _main(gen.to_argv(dict(spec, scales=[dict(factor=s9, tag=None)]), transforms=tr), f_err=_io.StringIO(), return_mininec=True)
+                        if not isinstance(G2, int):
+                            pg2 = np.array([p.point for p in G2.pulses])
+                            if pg2.shape == pc.shape and np.abs(pg2 - s9 * pc).max() > 1e-9 * max(np.abs(s9 * pc).max(), lam):
+                                bad.append('command line scaling is not applied last: rotation, translation and --geo-scale=%g put the antenna %.3g m away from '
+                                           '%g times the moved antenna (%r)' % (s9, np.abs(pg2 - s9 * pc).max(), s9, [a_ for a_ in gen.to_argv(dict(spec, scales=[dict(factor=s9, tag=None)]), transforms=tr) if a_.startswith('--geo')]))
             # ... and the same orientation in space: identical patterns
             zq = Angle(10.0, 25.0 if ground else 50.0, 3); aq = Angle(rng.uniform(0, 360), 70.0, 3)
             B.compute_far_field(zq, aq); C.compute_far_field(zq, aq)
